@@ -16,6 +16,14 @@ Space (every member is visited, nothing sampled):
              pair and the crossings);
              thorough: the full product (top-down, sequence over the template symbols); sequence over VALUE
              and the bottom-up order on the quick grammar set; values one node larger on the quick set.
+             An AnyTokenExcept family (GROUP -> '@' ProdSequence(GROUP, LST, AnyTokenExcept(...)) ';',
+             LST = ListProds('[', LITEM, None, ']'), LITEM -> AnyTokenExcept(...) | GROUP | LST) under three
+             tokenizers with different terminal sets, as *construction sequences from pristine objects*: one
+             parser from fresh objects; every ordered pair of tokenizers with the AnyTokenExcept object of
+             the sequence / of the list item / both being the very same object for both parsers (smaller
+             token set first, larger first, equal); three pairs sharing the template instances themselves
+             (refused loudly by the library: counted, nothing to judge).  Every parser of a sequence is
+             judged on all its values: it must behave as if built from fresh objects.
   data     : every value of <= S nodes (atoms a/b, omitted items, lists, rows, maps with repeated keys,
              sequences, absent optional containers), nesting depth <= D, width <= W
   text     : the data rendered with a mixed gap layout (blanks, line breaks, end-of-line and multi-line
@@ -43,8 +51,8 @@ LEVEL_TEXT = ("Every nested data value up to a node bound is rendered to text un
               "grammar, several white-space/comment layouts (incl. form feed / U+2028) and final-delimiter "
               "placements, parsed by the real parser with the default "
               "cleanup, and the cleaned tree must denote exactly the generating data.")
-LEVEL_NOTE = ("Small-scope: values with more nodes than the bound, other embeddings of the templates and "
-              "AnyTokenExcept are not covered. Trusted: renderer, normaliser and comparer in "
+LEVEL_NOTE = ("Small-scope: values with more nodes than the bound and other embeddings of the templates are "
+              "not covered; AnyTokenExcept only in the dedicated family. Trusted: renderer, normaliser and comparer in "
               "models/templates.py; names of the nodes in the cleaned tree are not compared.")
 RULE = ("case = one (grammar configuration, data value, layout, final-delimiter mode); data values are "
         "distinct by construction, a final-delimiter mode that adds no token is skipped. Non-trivial: the "
@@ -63,6 +71,9 @@ ASSUMPTIONS = [
     "bracket-less list of rows without any token reads as [] or as one empty row (the outcome labels in "
     "the evidence say which reading the implementation took)",
     "a line of the text ends at a line-feed only; form feed, U+2028 etc. are blanks / comment characters",
+    "helper objects (AnyTokenExcept) may be kept by the user and given to several parsers; a ListProds / "
+    "MapProds / ProdSequence instance given to a second parser is refused by an assertion at construction — "
+    "a loud refusal returns no items, so it is counted, not judged",
     "for a repeated key both 'position of first occurrence' and 'position of last occurrence' are "
     "accepted as source order",
 ]
@@ -76,6 +87,12 @@ REQUIRED_FEATURES = [
     "mopt:brackets", "mopt:no-brackets", "mopt:afd-true", "mopt:afd-false", "mopt:optional",
     "mopt:key-nonterminal", "mopt:key-symbol-is-value-symbol", "lopt:item-symbol-is-a-sequence",
     "row", "list-in-row", "map-in-row", "seq-in-row", "fd:after-last-row", "order:top-down", "order:bottom-up",
+    "family:any-token-except", "anyexcept:single-parser", "anyexcept:token-in-sequence",
+    "anyexcept:token-as-list-item", "anyexcept:token-unknown-to-the-smaller-tokenizer",
+    "shared-template-object:two-parsers", "shared:sequence-helper", "shared:list-item-helper",
+    "shared:both-helpers", "shared:first-parser-has-the-smaller-token-set",
+    "shared:first-parser-has-the-larger-token-set", "shared:same-token-set", "anyx:judged-parser-1",
+    "anyx:judged-parser-2", "shared-template-instance:refused-at-construction",
     "family:statements", "plain-stmt", "named-stmt", "seq:entered-after-rollback",
     "seq:entered-after-rollback:len0", "seq:entered-after-rollback:len1", "seq:entered-after-rollback:len2",
     "list-in-named-stmt", "map-in-named-stmt", "named-stmt-in-seq", "named-stmt-in-list",
@@ -115,11 +132,11 @@ _TIERS = {
     "quick": {"size": 4, "depth": 3, "width": 3, "big_size": 0,
               "layouts": ("mixed",), "more_layouts": ("exotic", "tight", "newline", "comment"), "layout_size": 3,
               "fd": (("all", "tight"),), "big_fd": (), "bottom_up_layouts": ("mixed",), "stmt_size": 3,
-              "stmt_big_size": 0},
+              "stmt_big_size": 0, "anyx_size": 4},
     "thorough": {"size": 4, "depth": 4, "width": 4, "big_size": 5,
                  "layouts": ("mixed",), "more_layouts": ("exotic", "tight", "space", "newline", "comment"),
                  "layout_size": 3, "fd": (("all", "tight"), ("inner", "exotic")), "big_fd": (("all", "tight"),),
-                 "bottom_up_layouts": ("mixed", "exotic"), "stmt_size": 3, "stmt_big_size": 4},
+                 "bottom_up_layouts": ("mixed", "exotic"), "stmt_size": 3, "stmt_big_size": 4, "anyx_size": 5},
 }
 SEQ_VARIANTS = ("direct", "value")
 
@@ -159,7 +176,11 @@ def bounds(tier):
             "max_nodes_on_core_grammars": t["big_size"] or None, "core_grammars": len(big) or None,
             "layouts_all_values": list(t["layouts"]), "layouts_values_up_to_nodes": [t["layout_size"], list(t["more_layouts"])],
             "final_delimiter_modes": ["none"] + [f"{a}/{b}" for a, b in t["fd"]],
-            "atoms": list(T.ATOMS), "keys": list(T.KEYS)}
+            "atoms": list(T.ATOMS), "keys": list(T.KEYS),
+            "any_token_except_family": {"construction_sequences": len(anyx_sequences()),
+                                        "tokenizers": {k: list(v[1]) for k, v in ANYX_TOKENIZERS.items()},
+                                        "share_modes": ["fresh"] + list(ANYX_SHARE) + ["template-instances"],
+                                        "max_nodes": t["anyx_size"], "layouts": ["mixed", "tight"]}}
 
 
 BIG_SLICES = 2
@@ -182,7 +203,8 @@ def shards(tier):
                 [("small", lk, mk, "value", "top-down") for lk, mk in [dflt] + small[-N_CROSSINGS:]] +
                 # statements '%' SEQ ';' | '%' WORD SEQ '.': a sequence entered again after a roll-back
                 [("stmt", dflt[0], dflt[1], sv, order) for sv in SEQ_VARIANTS for order in ORDERS] +
-                [("stmt", lk, mk, "direct", "top-down") for lk, mk in small[-N_CROSSINGS:]])
+                [("stmt", lk, mk, "direct", "top-down") for lk, mk in small[-N_CROSSINGS:]] +
+                [("anyx", list(tn), sh) for tn, sh in anyx_sequences()])
     # thorough: the full product with the sequence over the template symbols; the sequence over VALUE and
     # the bottom-up declaration order with the core (= quick) grammar set; values of big_size nodes on
     # the core set
@@ -195,6 +217,7 @@ def shards(tier):
     sh += [("stmt", dflt[0], dflt[1], sv, order) for sv in SEQ_VARIANTS for order in ORDERS
            if (sv, order) != ("direct", "top-down")]
     sh += [("stmtbig", lk, mk, "direct", "top-down") for lk, mk in [dflt] + big[-N_CROSSINGS:]]
+    sh += [("anyx", list(tn), sh_mode) for tn, sh_mode in anyx_sequences()]
     return sh
 
 
@@ -305,6 +328,207 @@ def _opt_features(lopt, mopt, sv, order):
     return f
 
 
+# ------------------------------------------------------------------------------- AnyTokenExcept family
+# GROUP -> '@' GSEQ ';'   GSEQ = ProdSequence('GROUP', 'LST', AnyTokenExcept('@', ';', '[', ']'))
+# LST   = ListProds('[', 'LITEM', None, ']')   LITEM -> AnyTokenExcept('@', ';', '[', ']') | GROUP | LST
+# under tokenizers with different terminal sets.  A "construction sequence" builds one or two parsers
+# from pristine helper objects; in a two-parser sequence the AnyTokenExcept objects (which the library
+# lets the user keep in a constant) are the very same objects for both parsers.  Oracle: every parser
+# returns the denoted items, i.e. behaves as if built from fresh objects.
+ANYX_TOKENIZERS = {
+    # name: (extra token patterns, atoms of the data)
+    "small": ("", ("a", "b")),
+    "mid": (r"|(?P<NUMBER>[0-9]+)", ("a", "1")),
+    "big": (r"|(?P<NUMBER>[0-9]+)|(?P<COMMA>,)|(?P<COLON>:)", ("a", "1", ",")),
+}
+ANYX_BASE = r"""
+    (?P<SPACE>\s+)
+    |(?P<COMMENT_EOL>//.*)
+    |(?P<COMMENT_ML>/\*)
+    |(?P<WORD>[a-z]+)
+    |(?P<SEMI>;)
+    |(?P<AT>@)
+    |(?P<BO>\[)
+    |(?P<BC>\])
+"""
+ANYX_SHARE = ("sequence-helper", "list-item-helper", "both-helpers")
+ANYX_LOPT = T.LOpt(True, False, None, None, False)      # how T.render writes the family's lists: '[' items ']'
+
+
+def _shape_sig(shape):
+    if shape.kind == "container-not-converted":
+        return {"sequence": "container-inside-sequence-not-converted",
+                "row": "container-inside-row-of-a-list-not-converted"}.get(shape.in_seq, "container-not-converted")
+    return shape.kind
+
+
+def anyx_sequences():
+    """[(tokenizer names, share mode)]: single parsers, every ordered pair of tokenizers with shared helper
+    objects, and pairs that share the template *instances* themselves."""
+    names = list(ANYX_TOKENIZERS)
+    out = [((n,), "fresh") for n in names]
+    out += [((a, b), sh) for a in names for b in names for sh in ANYX_SHARE]
+    out += [((a, b), "template-instances") for a, b in (("small", "big"), ("big", "small"), ("mid", "mid"))]
+    return out
+
+
+class _AnyxObjects:
+    """Pristine helper objects of one construction sequence."""
+
+    def __init__(self):
+        self.any_seq = impl.AnyTokenExcept("@", ";", "[", "]")
+        self.any_item = impl.AnyTokenExcept("@", ";", "[", "]")
+        self.seq_template = impl.ProdSequence("GROUP", "LST", self.any_seq)
+        self.list_template = impl.ListProds("[", "LITEM", None, "]")
+
+
+def anyx_build(tok_name, shared, share_mode):
+    """One parser; ``shared`` = the sequence's _AnyxObjects, used according to the share mode."""
+    fresh = _AnyxObjects()
+    any_seq = shared.any_seq if share_mode in ("sequence-helper", "both-helpers") else fresh.any_seq
+    any_item = shared.any_item if share_mode in ("list-item-helper", "both-helpers") else fresh.any_item
+    if share_mode == "template-instances":
+        seq_t, list_t = shared.seq_template, shared.list_template
+    else:
+        seq_t, list_t = impl.ProdSequence("GROUP", "LST", any_seq), fresh.list_template
+    extra, _ = ANYX_TOKENIZERS[tok_name]
+    syn = {k: v for k, v in SYNONYMS.items() if k in ("SEMI", "AT", "BO", "BC", "COMMENT_EOL", "COMMENT_ML")}
+    if "COMMA" in extra:
+        syn.update({"COMMA": ",", "COLON": ":"})
+    return impl.LLParser(ANYX_BASE + extra, synonyms=syn, span_matchers=dict(SPAN), productions={
+        "E": [("VALUE",)],
+        "VALUE": [("GROUP",), ("LST",)],
+        "GROUP": [("@", "GSEQ", ";")],
+        "GSEQ": seq_t,
+        "LST": list_t,
+        "LITEM": [any_item, ("GROUP",), ("LST",)],
+    })
+
+
+def anyx_construct(tok_names, share_mode):
+    """-> [parser or exception] in construction order, from pristine objects."""
+    shared = _AnyxObjects()
+    out = []
+    for tn in tok_names:
+        try:
+            out.append(anyx_build(tn, shared, share_mode))
+        except Exception as e:  # noqa
+            out.append(e)
+    return out
+
+
+def anyx_judge(parser, data, layout_name, acc):
+    """-> None or (sig, msg, obs, exp)"""
+    text = T.layout(T.render(data, ANYX_LOPT, T.M_DEFAULT).tokens, layout_name)
+    exp = T.expected(data)
+    acc.trans()
+    try:
+        root = parser.parse(text)
+    except impl.Error as e:
+        return ("valid-text-rejected", f"text denoting the data was rejected with {type(e).__name__}", text, repr(exp))
+    except Exception as e:  # noqa
+        return ("exception:" + type(e).__name__, f"parse raised {type(e).__name__}: {str(e)[:160]}", text, repr(exp))
+    try:
+        got = T.normalise(root)
+    except T.Shape as sh:
+        sig = _shape_sig(sh)
+        return (sig, "the cleaned tree still contains " + sh.kind.replace("-", " ")
+                + (f" inside a {sh.in_seq} element" if sh.in_seq else ""), sh.detail, repr(exp))
+    d = T.diff(exp, got)
+    if d is not None:
+        return (d, "cleaned value differs from the data the text denotes", repr(got), repr(exp))
+    return None
+
+
+def _anyx_kind(data, feats):
+    # does the value put a token matched through AnyTokenExcept into a sequence / into a list item position?
+    if isinstance(data, list):
+        for c in data[1:]:
+            if isinstance(c, str):
+                feats.add("anyexcept:token-in-sequence" if data[0] == "S" else "anyexcept:token-as-list-item")
+                if c in ("1", ","):
+                    feats.add("anyexcept:token-unknown-to-the-smaller-tokenizer")
+            else:
+                _anyx_kind(c, feats)
+
+
+def anyx_case(tok_names, share_mode, idx, data, layout_name, acc, parsers=None):
+    """Judge parser #idx of the construction sequence on one value.  -> violation (sig, case, msg, obs, exp)"""
+    if parsers is None:
+        parsers = anyx_construct(tok_names, share_mode)
+    case = {"family": "anyx", "tokenizers": list(tok_names), "share": share_mode, "judge": idx, "data": data,
+            "layout": layout_name}
+    v = anyx_judge(parsers[idx], data, layout_name, acc)
+    if v is None:
+        return None
+    sig, msg, obs, exp = v
+    if len(tok_names) > 1:
+        # the same parser built from fresh objects only: does it show the same deviation?
+        alone = anyx_construct((tok_names[idx],), "fresh")[0]
+        va = None if isinstance(alone, Exception) else anyx_judge(alone, data, layout_name, acc)
+        if va is None or va[0] != sig:
+            which = "second" if idx == 1 else "first"
+            return ("C05:shared-helper-object:%s-parser-differs" % which, case,
+                    f"parser #{idx + 1} of {list(tok_names)} built with {share_mode.replace('-', ' ')} shared: [{sig}] {msg}",
+                    obs, exp)
+    return ("C05:" + sig, case, msg, obs, exp)
+
+
+def run_anyx_shard(shard, tier, acc):
+    _, tok_names, share_mode = shard
+    t = _TIERS[tier]
+    parsers = anyx_construct(tok_names, share_mode)
+    ofeats = ["family:any-token-except", "anyexcept:single-parser" if len(tok_names) == 1 else "shared:" + share_mode]
+    if len(tok_names) == 2:
+        if share_mode != "template-instances":
+            ofeats.append("shared-template-object:two-parsers")
+        sizes = [len(ANYX_TOKENIZERS[n][1]) + (n == "mid") * 0.5 for n in tok_names]
+        order = {"small": 0, "mid": 1, "big": 2}
+        a, b = order[tok_names[0]], order[tok_names[1]]
+        ofeats.append("shared:first-parser-has-the-smaller-token-set" if a < b else
+                      "shared:first-parser-has-the-larger-token-set" if a > b else "shared:same-token-set")
+    for idx, parser in enumerate(parsers):
+        case0 = {"family": "anyx", "tokenizers": list(tok_names), "share": share_mode, "judge": idx, "data": "a",
+                 "layout": "tight"}
+        if isinstance(parser, Exception):
+            if share_mode == "template-instances" and idx > 0:
+                # a ListProds / ProdSequence instance given to a second parser is refused loudly at
+                # construction: no items are returned at all, nothing for this property to judge
+                acc.case(features=ofeats + ["shared-template-instance:refused-at-construction"],
+                         outcome="template-instance-refused:" + type(parser).__name__)
+                continue
+            alone = anyx_construct((tok_names[idx],), "fresh")[0]
+            acc.case(features=ofeats, outcome="construction:" + type(parser).__name__)
+            if not isinstance(alone, Exception):
+                acc.violation("C05:shared-helper-object:construction-fails", case0,
+                              f"parser #{idx + 1} of {list(tok_names)} with {share_mode.replace('-', ' ')} shared cannot "
+                              f"be constructed: {type(parser).__name__}: {str(parser)[-200:]}", type(parser).__name__,
+                              "a parser, as with fresh helper objects")
+            continue
+        atoms = ANYX_TOKENIZERS[tok_names[idx]][1]
+        n = 0
+        for data in T.simple_values(atoms, t["anyx_size"]):
+            if isinstance(data, str):
+                continue                # the family's start symbol is a group or a list
+            dfeats = set()
+            T.features_of(data, dfeats)
+            _anyx_kind(data, dfeats)
+            for lay in ("mixed", "tight"):
+                v = anyx_case(tok_names, share_mode, idx, data, lay, acc, parsers)
+                acc.case(nontrivial=(len(tok_names) > 1 or T.depth_of(data) >= 2),
+                         features=list(dfeats) + ofeats + ["layout:" + lay, "anyx:judged-parser-%d" % (idx + 1)],
+                         outcome="ok:" + T._kind(T.expected(data)) if v is None else v[0])
+                if v is not None:
+                    acc.violation(*v)
+            n += 1
+            if n % 300 == 0:
+                acc.sample({"family": "anyx", "tokenizers": list(tok_names), "share": share_mode, "judge": idx,
+                            "data": data})
+                if acc.expired():
+                    return
+
+
+
 # ------------------------------------------------------------------------------- one case
 def judge(parser, lopt, mopt, data, layout_name, fd_mode, acc):
     """-> (outcome, features, violation or None); violation = (sig, msg, obs, exp)."""
@@ -365,10 +589,7 @@ def judge(parser, lopt, mopt, data, layout_name, fd_mode, acc):
     try:
         got = T.normalise(root, rows=lopt.item_seq)
     except T.Shape as s:
-        sig = s.kind
-        if s.kind == "container-not-converted":
-            sig = {"sequence": "container-inside-sequence-not-converted",
-                   "row": "container-inside-row-of-a-list-not-converted"}.get(s.in_seq, "container-not-converted")
+        sig = _shape_sig(s)
         return (sig, feats, ("C05:" + sig, "the cleaned tree still contains " + s.kind.replace("-", " ")
                              + (f" inside a {s.in_seq} element" if s.in_seq else ""), s.detail, exp))
     label = None
@@ -437,6 +658,9 @@ def run_data(parser, lk, mk, sv, order, lopt, mopt, ofeats, data, tier, acc, big
 
 def run_shard(shard, tier, seed, acc):
     t = _TIERS[tier]
+    if shard[0] == "anyx":
+        run_anyx_shard(shard, tier, acc)
+        return
     kind, lk, mk, sv, order = shard[:5]
     lopt, mopt = _lopt(lk), _mopt(mk)
     stmts = kind in ("stmt", "stmtbig")
@@ -474,6 +698,20 @@ def run_shard(shard, tier, seed, acc):
 
 
 def replay(case, acc):
+    if case.get("family") == "anyx":
+        acc.case()
+        parsers = anyx_construct(case["tokenizers"], case["share"])
+        p = parsers[case["judge"]]
+        if isinstance(p, Exception):
+            alone = anyx_construct((case["tokenizers"][case["judge"]],), "fresh")[0]
+            if not isinstance(alone, Exception) and not (case["share"] == "template-instances" and case["judge"] > 0):
+                acc.violation("C05:shared-helper-object:construction-fails", case, "parser cannot be constructed",
+                              type(p).__name__, "a parser, as with fresh helper objects")
+            return
+        v = anyx_case(case["tokenizers"], case["share"], case["judge"], case["data"], case["layout"], acc, parsers)
+        if v is not None:
+            acc.violation(*v)
+        return
     lk, mk, sv = case["lopt"], case["mopt"], case["seq"]
     lopt, mopt = _lopt(lk), _mopt(mk)
     parser = build_parser(lopt, mopt, sv, case.get("order", "top-down"), bool(case.get("stmts")))
